@@ -298,28 +298,36 @@ Proof.
   destruct (Nat.eqb (length banks) 1); [reflexivity|discriminate].
 Qed.
 
-(* what a passed check_bank_output says *)
+(* what a passed check_bank_output says (the BIGINT_MAX_BITS bound is checked for writes only) *)
 Lemma bank_output_ok mb b pos size write : check_bank_output mb b pos size write = Ok tt ->
   (forall sz, bk_size b = Some sz -> pos + size <= sz) /\
   (write = true -> bk_outp b <> None) /\
-  (forall o, bk_outp b = Some o -> o + pos + size <= mb).
+  (write = true -> forall o, bk_outp b = Some o -> o + pos + size <= mb).
 Proof.
   unfold check_bank_output. intros H.
-  destruct (bk_size b) as [sz|].
-  - destruct (checked_add pos size) as [e|] eqn:E; [|discriminate]. apply checked_add_some in E.
-    destruct (sz <? e) eqn:L; [discriminate|].
-    destruct (bk_outp b) as [o|].
-    + destruct (checked_add o pos) as [p|] eqn:E1; [|discriminate]. apply checked_add_some in E1.
-      destruct (checked_add p size) as [e2|] eqn:E2; [|discriminate]. apply checked_add_some in E2.
-      destruct (mb <? e2) eqn:L2; [discriminate|].
-      split; [intros ? Hs; inversion Hs; llia|]. split; [discriminate|]. intros ? Ho; inversion Ho; llia.
-    + destruct write; [discriminate|]. split; [intros ? Hs; inversion Hs; llia|]. split; [discriminate|discriminate].
-  - destruct (bk_outp b) as [o|].
-    + destruct (checked_add o pos) as [p|] eqn:E1; [|discriminate]. apply checked_add_some in E1.
-      destruct (checked_add p size) as [e2|] eqn:E2; [|discriminate]. apply checked_add_some in E2.
-      destruct (mb <? e2) eqn:L2; [discriminate|].
-      split; [discriminate|]. split; [discriminate|]. intros ? Ho; inversion Ho; llia.
-    + destruct write; [discriminate|]. split; [discriminate|]. split; [discriminate|discriminate].
+  assert (Hsize : forall sz, bk_size b = Some sz -> pos + size <= sz).
+  { intros sz Hs. rewrite Hs in H. destruct (checked_add pos size) as [e|] eqn:E; [|discriminate].
+    apply checked_add_some in E. destruct (sz <? e) eqn:L; [discriminate|]. llia. }
+  split; [exact Hsize|].
+  assert (Hrest : match (match write, bk_outp b with
+             | true, Some o =>
+                 match (match checked_add o pos with Some p => checked_add p size | None => None end) with
+                 | None => Err
+                 | Some e => if mb <? e then Err else Ok tt
+                 end
+             | _, _ => Ok tt
+             end) with
+      | Err => Err | Panic => Panic
+      | Ok _ => if write && (match bk_outp b with None => true | Some _ => false end) then Err else Ok tt
+      end = Ok tt).
+  { destruct (bk_size b) as [sz|]; [|exact H].
+    destruct (checked_add pos size) as [e|]; [|discriminate]. destruct (sz <? e); [discriminate|exact H]. }
+  clear H. destruct write; [|split; discriminate].
+  destruct (bk_outp b) as [o|]; [|discriminate].
+  destruct (checked_add o pos) as [p|] eqn:E1; [|discriminate]. apply checked_add_some in E1.
+  destruct (checked_add p size) as [e2|] eqn:E2; [|discriminate]. apply checked_add_some in E2.
+  destruct (mb <? e2) eqn:L2; [discriminate|].
+  split; [discriminate|]. intros _ o' Ho. inversion Ho; subst. llia.
 Qed.
 
 Lemma output_position_some b pos o : get_output_position b pos = Ok (Some o) ->
